@@ -419,7 +419,7 @@ pub fn run(tier: Tier) -> i32 {
         st = st.merge(s2);
     }
     rep.guard("non-null compound results occur", st.nontrivial > 1000);
-    rep.rule = "all pairs (L, R) from E1 x E0, E0 x E1 and six diagonals of E1 x E1 (thorough: all of E1 x E1) x 11 laws x the document pool: the compound expression (text, and where expressible the tree built through Expression::new) against the combination of the parts' individual search results, computed with separate search calls of the implementation. states = pairs; transitions = (pair, law, document); non-trivial = non-null compound result".into();
+    rep.rule = "all pairs (L, R) from E1 x E0, E0 x E1 and six diagonals of E1 x E1 (thorough: all of E1 x E1) x 11 laws x the document pool: the compound expression (text, and where expressible the tree built through Expression::new) against the combination of the parts' individual search results, computed with separate search calls of the implementation. states = pairs; transitions = (pair, law, document); non-trivial = non-null compound result Plus 11 parts that create values inside the expression (integers beyond i64, i64::MIN, 1e308, 5e-324, -0.0, 1 vs 1.0, non-ASCII strings) x 26 other parts, both orders.".into();
     rep.bounds = json!({"E1": e1v.len(), "E0": e0v.len(), "laws": LAWS, "documents": dv.len(), "full_product": step == 1});
     rep.assumptions = vec!["truthiness table of the specification is applied by the harness to the parts' results".into()];
     rep.stats = st;
